@@ -166,6 +166,7 @@ class Env:
         class HE:
             @staticmethod
             async def start_connection(addr_infos, **k):
+                env.tried = [a[3] for a in addr_infos]  # the addresses handed to happy eyeballs for this attempt
                 return Sock(env.script)
 
             @staticmethod
